@@ -1002,13 +1002,47 @@ class TreeGen:
             return self.bare(rng.choice(("int", "frac", "one")))
         return self.with_dims(dims, depth)
 
+    def twin_leaf(self, a, same="value"):
+        """A leaf with the same physical value as subtree `a` (same='value'), or - for a leaf `a` -
+        the same *magnitude* in other units in the base assignment (same='magnitude')."""
+        nodes = number_nodes(a)
+        self.set_shapes(nodes)
+        outs = model_tree(nodes, self.cx, self.nelem)[a.id]
+        if any(o[0] != "ok" or is_nan(o[1].v) or o[1].bare for o in outs):
+            return None
+        dims = outs[0][1].dims
+        try:
+            b = self.leaf(dims, scalar=self.full is None)
+        except LookupError:
+            return None
+        lf = b.leaf
+        lf.intkind = False
+        if self.full is not None:
+            lf.shape = self.full
+        if same == "value":
+            lf.vals = [o[1].v for o in outs] if self.full is not None else [outs[0][1].v]
+        else:
+            if a.kind != "leaf" or not a.leaf.factors[0].exact or not lf.factors[0].exact:
+                return None
+            fa, fb = F(a.leaf.factors[0].v), F(lf.factors[0].v)
+            vs = [o[1].v / fa * fb for o in outs]
+            lf.vals = vs if self.full is not None else vs[:1]
+        return b
+
     def tree(self):
         rng = self.rng
         d = rng.randint(1, self.depth)
         r = rng.random()
         if r < 0.3:
             a = self.sub(d - 1)
-            b = self.partner(a, d - 1)
+            r2 = rng.random()
+            b = None
+            if r2 < 0.25:
+                b = self.twin_leaf(a, "value")          # physically equal, other units
+            elif r2 < 0.4:
+                b = self.twin_leaf(a, "magnitude")      # same number, other units
+            if b is None:
+                b = self.partner(a, d - 1)
             if rng.random() < 0.3:
                 a, b = b, a
             root = self.binop(rng.choice(CMPS), a, b)
@@ -1789,7 +1823,8 @@ def evaluate_tree(root, g, runner, decider, rec, cx, ti, label):
                     "model_root": _short_model(model[root.id][0])})
 
 
-MATRIX_KINDS = ("dim", "dim-same-units", "dim-prefixed", "other-dim", "power-dim", "dless-unit", "unitless",
+MATRIX_KINDS = ("dim", "dim-same-units", "dim-prefixed", "equal-value", "equal-magnitude", "other-dim",
+                "power-dim", "dless-unit", "unitless",
                 "ratio", "bare-int", "bare-frac", "bare-zero", "bare-nan", "bare-one")
 
 
@@ -1803,6 +1838,11 @@ def matrix_trees(g, rng, reps, all_forms=True):
                            "bare-nan": "nan", "bare-one": "one"}[kind])
         if kind == "dim":
             return g.leaf(dims)
+        if kind in ("equal-value", "equal-magnitude"):
+            tw = None
+            if ref_leaf is not None and ref_leaf.kind == "leaf":
+                tw = g.twin_leaf(ref_leaf, kind[6:])
+            return tw if tw is not None else g.leaf(dims)
         if kind == "dim-same-units":
             n = g.leaf(dims)
             if ref_leaf is not None and ref_leaf.kind == "leaf" and ref_leaf.leaf.dims == dims:
@@ -1872,8 +1912,11 @@ def matrix_trees(g, rng, reps, all_forms=True):
                 for rk in MATRIX_KINDS:
                     if lk.startswith("bare-") and rk.startswith("bare-"):
                         continue
-                    if lk == "dim-same-units" or rk == "other-dim" and lk == "other-dim":
+                    if lk in ("dim-same-units", "equal-value", "equal-magnitude") or \
+                            rk == "other-dim" and lk == "other-dim":
                         continue
+                    if not all_forms and rng.random() < 0.3:
+                        continue                      # quick tier: 70 % of the cells per repetition
                     dims = g.random_dims()
                     if not dims:
                         dims = {next(iter(pool.base)): F(1)} if pool.base else dims
